@@ -246,6 +246,22 @@ class Env:
         owner = rng.choice(self.owners)
         nform = rng.choice(("rel", "abs", "zone"))
         op = {"kind": kind, "owner": owner, "nform": nform}
+        if kind in ("delete_rds", "delete_exact_rds", "delete_rdatas", "delete_type", "delete_exact_type") and rng.random() < 0.5:
+            # aimed at a record set the zone held before the transaction: all of it, part of it, or part of it plus a stranger
+            held = [(exact, key, vals) for exact, sets in self.mz.nodes.values() for key, (ttl, vals) in sets.items() if vals and key[0] != 6]
+            if held:
+                exact, (rdtype, covers), vals = rng.choice(held)
+                op["owner"] = exact
+                if kind in ("delete_type", "delete_exact_type"):
+                    op.update(rdtype=rdtype, covers=covers, tform=rng.choice(("int", "str")))
+                    return op
+                pick = [v for v in vals if rng.random() < 0.6] or [vals[0]]
+                if rng.random() < 0.3 and vals[0].tname in self.types:
+                    stranger = self.val(vals[0].tname)
+                    if vals[0].tname != "RRSIG" or stranger.args[0] == covers:
+                        pick.append(stranger)
+                op.update(vals=pick, aform=rng.choice(("rrset", "name_rds")) if kind != "delete_rdatas" else "name_rdatas")
+                return op
         if kind in ("add", "replace"):
             t = rng.choice(self.types)
             vals = [self.val(t) for _ in range(rng.choice((1, 1, 2, 3)))]
@@ -546,7 +562,9 @@ def run(spec, ctx):
     for i in range(spec["n"]):
         if ctx.expired(1.0):
             break
-        mz = GZ.gen_zone(rng, plain=True, size=rng.choice((0, 2, 5)), types=["A", "TXT", "MX", "AAAA", "NSEC", "KEY"], delegations=rng.random() < 0.3)
+        mz = GZ.gen_zone(rng, plain=True, size=rng.choice((0, 2, 5)), types=["A", "TXT", "MX", "AAAA", "NSEC", "KEY", "RRSIG", "TXT", "A"], delegations=rng.random() < 0.3)
+        for _exact, _sets in mz.nodes.values():
+            _sets.pop((46, 5), None)  # RRSIG(CNAME) is CNAME-like: it would evict its neighbours while the zone is being built
         relativize = rng.random() < 0.5
         env = Env(rng, mz, relativize)
         ops = [env.gen_op() for _ in range(rng.randint(1, 10))]
